@@ -77,6 +77,9 @@ def handle (args : List String) (impl : String) : R Ans :=
       | some p => (match sequenceOfPath g p with | some s => showDigits s | none => "panic")
       | none => "panic"
     let model := s!"edges={showAllEdges edges}|links={if links.isEmpty then "-" else ",".intercalate links}|valid={if vex.isEmpty then "-" else ",".intercalate (vex.map fun e => toHex e.val 2)}|maxpath={showPath mp}|mpseq={match mpSeq with | some s => showDigits s | none => "panic"}|wseq={match wSeq with | some s => showDigits s | none => "panic"}|beam={";".intercalate (beams.map showB)}|bseq={";".intercalate (beams.map showBS)}"
+    -- a recorded extension that resolves to no node end (the beam search is only judged without any)
+    let dangling := ns.any fun n => [Dir.L, Dir.R].any fun d => base4.any fun b =>
+      n.exts.hasExt d b.val && (findLink g (extend (termKmer K n.seq d) b d) d).isNone
     let verdict ← do
       if impl == "panic" then pure "FAIL:panic-in-range" else
       match field impl "edges", field impl "valid", field impl "maxpath", field impl "mpseq", field impl "wseq" with
@@ -101,7 +104,7 @@ def handle (args : List String) (impl : String) : R Ans :=
               else if ¬ (im.map (·.1)).Nodup then "FAIL:best-path-repeats-a-node"
               else if ¬ pathSeqOK g im ims then "FAIL:best-path-sequence-kmers-differ-from-walked-nodes"
               else if walkValid ie walk ∧ ¬ pathSeqOK g walk iws then "FAIL:walk-sequence-kmers-differ-from-walked-nodes"
-              else if ib.any (·.isNone) then "FAIL:beam-search-panics"
+              else if ib.any (·.isNone) ∧ ¬ dangling then "FAIL:beam-search-panics-on-a-graph-whose-extensions-all-resolve"
               else if ¬ ib.all (fun x => match x with | some (p, _) => walkValid ie p | none => true) then "FAIL:beam-path-steps-off-the-reported-edges"
               else if ¬ ib.all (fun x => match x with | some (p, s) => p.isEmpty ∨ pathSeqOK g p s | none => true) then "FAIL:beam-path-sequence-kmers-differ-from-walked-nodes"
               else "ok")
